@@ -160,11 +160,11 @@ def origin_leaves(e):
     return out
 
 
-def backslice(prog, fn, e, max_nodes=4000):
+def backslice(prog, fn, e, max_nodes=4000, user_stop=False):
     """Backward data slice of expression e inside fn: all sub-expressions, following
     named variables to every one of their definitions (and partial writes).
     Returns (calls, places, nodes)."""
-    eb = ExprBuilder(prog, fn)
+    eb = ExprBuilder(prog, fn, user_stop=user_stop)
     names = {vn: l for vn, l, proj in fn.var_places if not proj}
     seen_vars = set()
     calls = []
